@@ -436,4 +436,92 @@ theorem valid_runL (rs rs' : List (List Lossy.Relation)) (os : List LOp) (hv : v
     obtain ⟨rs1, h1, h2⟩ := h
     exact ih rs1 (valid_apply rs rs1 o hv (ho o (by simp)) h1) (fun x hx => ho x (by simp [hx])) h2
 
+
+/-! ### the converse: an index out of range panics on the tree -/
+
+theorem nthPos_none_of_count (P : RNode → Bool) (cs : List RNode) (i : Nat) (h : cs.countP P ≤ i) :
+    nthPos P cs i = none := by
+  cases hn : nthPos P cs i with
+  | none => rfl
+  | some p =>
+    obtain ⟨pre, x, post, e, _, hx, hc⟩ := nthPos_some hn
+    rw [e] at h
+    simp [List.countP_cons, hx, hc] at h
+    omega
+
+theorem countR_entry (E : List Lossy.Relation) :
+    (entryFromLossy E).children.countP (isNodeOf .RELATION) = E.length := by
+  rcases List.eq_nil_or_concat E with rfl | ⟨init, last, rfl⟩
+  · rw [entryFromLossy_eq]; rfl
+  · rw [List.concat_eq_append, entry_snoc, List.countP_append, countR_pre]
+    simp [isRel_built]
+
+theorem nthEntry_none (rs : List (List Lossy.Relation)) (i : Nat) (h : splitAt? rs i = none) (f : Field)
+    (hf : f.kids = (built rs).children) : nthNode .ENTRY f.kids i = none := by
+  rw [hf]; exact nthPos_none_of_count _ _ _ (by rw [countE_built]; exact splitAt?_none h)
+
+theorem nthRel_none (RA RB : List (List Lossy.Relation)) (E : List Lossy.Relation) (j : Nat) (h : splitAt? E j = none)
+    (f : Field) (hf : f.kids = (built (RA ++ E :: RB)).children) :
+    ∃ p, nthNode .ENTRY f.kids RA.length = some p ∧ nthNode .RELATION (f.entryKids p) j = none := by
+  refine ⟨_, by rw [hf]; exact nthNode_built RA RB E, ?_⟩
+  rw [built_kids_split] at hf
+  rw [entryKids_split f _ _ _ hf]
+  exact nthPos_none_of_count _ _ _ (by rw [countR_entry]; exact splitAt?_none h)
+
+/-- when the call is undefined on the value (an index is out of range), it panics on the tree -/
+theorem stepI_panics (rs : List (List Lossy.Relation)) (o : LOp) (h : o.apply rs = none) (f : Field)
+    (hf : f.kids = (built rs).children) : (stepI f o).isOk = false := by
+  unfold LOp.apply at h
+  unfold stepI
+  cases hr : o.onRel with
+  | some t =>
+    obtain ⟨i, j, g⟩ := t
+    rw [hr] at h
+    simp only
+    cases hs : splitAt? rs i with
+    | none => rw [nthEntry_none rs i hs f hf]; rfl
+    | some x =>
+      obtain ⟨RA, E, RB⟩ := x
+      simp only [hs, Option.bind_some, Option.map_eq_none_iff] at h
+      obtain ⟨rfl, rfl⟩ := splitAt?_some hs
+      obtain ⟨p, hp, hq⟩ := nthRel_none RA RB E j h f hf
+      simp only [hp, hq]; rfl
+  | none =>
+    rw [hr] at h
+    simp only
+    cases o <;> simp only [LOp.onRel, reduceCtorEq] at hr
+    · -- entryPush
+      simp only [Option.map_eq_none_iff] at h
+      simp only [nthEntry_none rs _ h f hf]; rfl
+    · -- entryReplace
+      rename_i i j r
+      cases hs : splitAt? rs i with
+      | none => simp only [nthEntry_none rs i hs f hf]; rfl
+      | some x =>
+        obtain ⟨RA, E, RB⟩ := x
+        simp only [hs, Option.bind_some, Option.map_eq_none_iff] at h
+        obtain ⟨rfl, rfl⟩ := splitAt?_some hs
+        obtain ⟨p, hp, hq⟩ := nthRel_none RA RB E j h f hf
+        simp only [hp, Field.entryReplaceAt, hq]; rfl
+    · -- removeRelation
+      rename_i i j
+      cases hs : splitAt? rs i with
+      | none => simp only [Field.removeRelation, nthEntry_none rs i hs f hf]; rfl
+      | some x =>
+        obtain ⟨RA, E, RB⟩ := x
+        simp only [hs, Option.bind_some, Option.map_eq_none_iff] at h
+        obtain ⟨rfl, rfl⟩ := splitAt?_some hs
+        obtain ⟨p, hp, hq⟩ := nthRel_none RA RB E j h f hf
+        simp only [Field.removeRelation, hp, hq]; rfl
+    · -- insert: never undefined
+      rename_i i e
+      cases hs : splitAt? rs i <;> simp [hs] at h
+    · simp at h
+    · -- replace
+      simp only [Option.map_eq_none_iff] at h
+      simp only [Field.replace, nthEntry_none rs _ h f hf]; rfl
+    · -- removeEntry
+      simp only [Option.map_eq_none_iff] at h
+      simp only [Field.removeEntry, nthEntry_none rs _ h f hf]; rfl
+
 end Deb822Verif.Rel.Edit
